@@ -425,7 +425,8 @@ CLAIM = {
             "route sets (trading + data routes, incl. non-multiples like 3m+5m, 45m+1h and smaller data routes); the fast time loop "
             "partitions sessions of length 1..13 into consecutive chunks ending at the session length (no over-long trailing chunk). (3) The two simulator loops have identical phase sequences after "
             "inlining helpers and corresponding route-due tests; the fast matcher sets the clock before each execute and at chunk end. "
-            "(4) A chunk with a gap inside (through _simulate_new_candles) fills one / two orders exactly as the normal per-minute "
+            "The span runs also compare the active-order list left for the next strategy cycle, and a MARKET order submitted by a fill hook "
+            "must execute at the end of that minute in both modes. (4) A chunk with a gap inside (through _simulate_new_candles) fills one / two orders exactly as the normal per-minute "
             "protocol does, and a one-candle chunk fills two / three orders and a reaction order in path order. "
             "Not decided: whole-session output equality for arbitrary strategies; liquidation inside a chunk (C09 defines it per chunk).",
     "note": "Trusted: interpreter semantics; a span = 2 minutes, 1 order; quick tier samples every 4th ordering (thorough: all 8308).",
